@@ -70,7 +70,7 @@ pub fn build_spec(property: &str, tier: &str, seed: u64) -> Option<Spec> {
             ];
             Some(Spec {
                 property: "C03", level: "fault_enumeration", phases,
-                rule: "hostile-stream-search: seeded runs over corpus documents, generated documents, token soup, random characters and random bytes, through all 14 entry points (the 13 of the Parse trait and Parser::new_with + parse_in under the four contexts) x 4 option sets x 5 Parse targets, with 0-5 faults (Fail, End, Flip, BitFlip, Drop, Dup, Swap, Insert with foreign byte lengths, Resume = non-fused None, FailThenResume) and random length profiles; corpus-prefixes-and-byte-edits: every prefix and every single-byte substitution (all 256 values) of every corpus document <= 2 KiB through parse_slice*; deep-nesting-small-stack: child processes parsing (and, on success, traversing) nesting depths 10^3..2*10^6 of six shapes x fourteen tails inside a 64/128/256 KiB thread. A case is one explicit stream scenario or deep scenario; distinct = distinct digest; non-trivial = a fault was delivered at or before the parser's last pull (stream phases) or depth >= 1000 (deep phase).".into(),
+                rule: "hostile-stream-search: seeded runs over corpus documents, generated documents, token soup, random characters and random bytes, through all 14 entry points (the 13 of the Parse trait and Parser::new_with + parse_in under the four contexts) x 4 option sets x 5 Parse targets, with 0-5 faults (Fail, End, Flip, BitFlip, Drop, Dup, Swap, Insert with foreign byte lengths, Resume = non-fused None, FailThenResume) and random length profiles; corpus-prefixes-and-byte-edits: every prefix and every single-byte substitution (all 256 values) of every corpus document <= 2 KiB through parse_slice*; deep-nesting-small-stack: child processes parsing (and, on success, traversing) nesting depths 10^3..2*10^6 of nine shapes (open / closed arrays and objects, mixed, wide, a deep closed value embedded in a small outer document, and long runs of one token at every grammar position) x sixteen tails (clean, end / failure / wrong closer / garbage at chosen levels, after the completed root, and one generic stream fault at a boundary-biased position) inside a 64/128/256 KiB thread, the children running from an unoptimised build. A case is one explicit stream scenario or deep scenario; distinct = distinct digest; non-trivial = a fault was delivered at or before the parser's last pull (stream phases) or depth >= 1000 (deep phase).".into(),
                 assumptions: vec![
                     "oracle = Ok | Err, no panic (overflow checks and debug assertions on), bounded polling (stream watchdog at items + 10 000 polls), child exit status 0 for deep scenarios".into(),
                     "hangs that never touch the stream are caught by the supervisor's wall-clock limit only".into(),
@@ -90,7 +90,7 @@ pub fn build_spec(property: &str, tier: &str, seed: u64) -> Option<Spec> {
             ];
             Some(Spec {
                 property: "C06", level: "exploration", phases,
-                rule: "history-search: seeded operation histories (1-24 operations, one in ten up to the tier's maximum) over a per-run key universe of 1-3 keys (dense duplicates) or 24-48 keys (several growth/rehash cycles of the raw table; inline, heap-spilled, empty, non-ASCII and shared-prefix keys), up to three registers, per-run operation weights with a random subset of the 24 operations disabled, a cancellation point (pull n, then drop / exhaust / unwind) on every lazily-mutating removal iterator, and a simulator-chosen hash behaviour (good, constant, 2/4/8 distinct hashes, constant control tag, constant start slot). After every operation: result vs list model, entries of every register, all ten key queries per universe key, index-dump invariants. small-universe-exhaustive (supplementary): every history up to the length bound over a 21-operation menu on keys {a,b}. A case is one explicit history; distinct = distinct digest of the operation list with arguments and hash configuration; non-trivial = the history contains a cancellation that left work to Drop (untouched / partial / unwound) or a growth of the raw table after positions had been shifted.".into(),
+                rule: "history-search: seeded operation histories (1-24 operations, one in ten up to the tier's maximum) over a per-run key universe of 1-3 keys (dense duplicates) or 24-48 keys (several growth/rehash cycles of the raw table; inline, heap-spilled, empty, non-ASCII and shared-prefix keys), up to three registers, per-run operation weights with a random subset of the 26 operations disabled (among them extend from a source iterator that panics after k items, from_parse, whose objects also get the eight mapped key queries checked, and clone_from); profiles: huge key universes (1/40), grow-then-drain (1/400), large objects of 1000-2600 entries (3/400), boundary-code-point keys (1/5 of the universes), a cancellation point (pull n, then drop / exhaust / unwind) on every lazily-mutating removal iterator, and a simulator-chosen hash behaviour (good, constant, 2/4/8 distinct hashes, constant control tag, constant start slot). After every operation: result vs list model, entries of every register, all ten key queries per universe key, index-dump invariants. small-universe-exhaustive (supplementary): every history up to the length bound over a 21-operation menu on keys {a,b}. A case is one explicit history; distinct = distinct digest of the operation list with arguments and hash configuration; non-trivial = the history contains a cancellation that left work to Drop (untouched / partial / unwound) or a growth of the raw table after positions had been shifted.".into(),
                 assumptions: vec![
                     "the list model (sim/src/object/model.rs) pins only behaviour stated in the rustdoc or in the property's anchors: in-place replacement at the first occurrence, completion in Drop, removal order by position".into(),
                     "mem::forget of a mutating iterator is not injected (leaking is not among the listed operations)".into(),
@@ -107,7 +107,7 @@ pub fn build_spec(property: &str, tier: &str, seed: u64) -> Option<Spec> {
             let phases: Vec<Box<dyn Phase>> = vec![Box::new(c14::C14Search { runs: runs(600_000, 20_000_000, tier), max_len: if thorough { 200 } else { 40 } })];
             Some(Spec {
                 property: "C14", level: "exploration", phases,
-                rule: "twin-history-search: the C06 workload (seeded histories with cancellation points and simulator-chosen hash behaviour); at 1-3 checkpoints per history the object's own observed entry list is rebuilt by ten other routes (from_vec, pushes, reversed push_front, chunked extend, superset with junk entries removed again under random cancellation, clone, into_iter/collect, null-then-iter_mut, inserts, Clone::clone_from onto an object with another history) each under a fresh hash seed and mode, and object, Value::Object and Value::Array wrappers must be ==, compare Equal both ways (cmp and partial_cmp) and hash identically under SipHash and FNV-1a; five near copies (one value / one key changed, entry duplicated, removed, adjacent swapped) must be unequal, not Equal, antisymmetric; a pool of up to 16 snapshots, near copies and plain values is checked pairwise (== iff structurally identical by an independent walk, Equal iff ==, antisymmetry, partial_cmp agrees, equal => same hash) and triple-wise (transitivity). A case is one history with its twin seed; distinct = distinct digest; non-trivial = at least one compared twin had an index dump (bucket count or bucket contents) different from the original's, i.e. the internal state really differed when equality was asked.".into(),
+                rule: "twin-history-search: the C06 workload (seeded histories with cancellation points and simulator-chosen hash behaviour); at 1-3 checkpoints per history the object's own observed entry list is rebuilt by ten other routes (from_vec, pushes, reversed push_front, chunked extend, superset with junk entries removed again under random cancellation, clone, into_iter/collect, null-then-iter_mut, inserts, Clone::clone_from onto an object with another history) each under a fresh hash seed and mode, and object, Value::Object and Value::Array wrappers must be ==, compare Equal both ways (cmp and partial_cmp) and hash identically under SipHash and FNV-1a; nine kinds of near copies (one value, one nested leaf, one key changed / replaced / shifted to another plane, entry duplicated, removed, adjacent swapped; position biased to the ends) must be unequal, not Equal, antisymmetric; a pool of up to 16 snapshots, near copies and plain values is checked pairwise (== iff structurally identical by an independent walk, Equal iff ==, antisymmetry, partial_cmp agrees, equal => same hash) and triple-wise (transitivity). A case is one history with its twin seed; distinct = distinct digest; non-trivial = at least one compared twin had an index dump (bucket count or bucket contents) different from the original's, i.e. the internal state really differed when equality was asked.".into(),
                 assumptions: vec![
                     "ground truth is the object's own observed entry list, never the C06 model; twins whose construction does not reproduce that list are skipped (a C06 matter)".into(),
                     "no particular order is required, only the laws; unequal values may hash alike".into(),
